@@ -70,6 +70,8 @@ OPS = {
     "permute_rev": ("move", lambda x: x.permute(*reversed(range(x.ndim)))),
     "select0": ("move", lambda x, i: x.select(0, i)),
     "index0": ("move", lambda x, i: x[i]),
+    "index1d": ("move", lambda x, i: x[i]),  # on a 1-D tensor: a 0-dim (quantized) tensor
+    "transpose_dd": ("move", lambda x, d: x.transpose(d, d)),  # both dims name the same dimension: the identity
     "slice": ("move", lambda x, a, b: x[a:b]),
     "slice_last": ("move", lambda x, a, b: x[..., a:b]),
     "expand": ("move", lambda x, n: x.unsqueeze(0).expand(n, *x.shape)),
@@ -246,6 +248,14 @@ def main():
                         rec["cmp"] = {"struct": "compare failed: " + str(ex)[:100]}
                 # inputs must not have been modified (except by in-place ops, none here)
                 rec["inputs_unchanged"] = [codes_digest(a) for a in args] == in_codes
+                # a copy (clone, or a move to a different dtype) must own its payload: torch's .to(other dtype) / .clone() never alias
+                if name in ("clone", "to_dtype") and isinstance(out, QTensor) and isinstance(args[0], QTensor):
+                    def payload_ptr(t):
+                        d = t._data
+                        d = d._data if not type(d) is torch.Tensor else d
+                        return d.data_ptr()
+                    if name == "clone" or out.dtype != args[0].dtype:
+                        rec["aliases_source_payload"] = payload_ptr(out) == payload_ptr(args[0])
                 # min code of int8 inputs (the -128 case of neg)
                 mins = []
                 for a in args:
